@@ -8,6 +8,7 @@ legitimately leave freedom (datagram loss, values quinn computes), the predictio
 observed value after checking it against the relation the property states.
 -/
 import WtVerif.Driver.Ops3
+import WtVerif.Driver.StreamLife
 import WtVerif.Driver.Worker
 import WtVerif.Driver.StreamMap
 
@@ -302,12 +303,26 @@ def handle4 (op : String) (a obs : List String) : Option Verdict :=
       else if action == "reset" then
         (if phase == "after" then ["read=eos", "write=-", "finish=ok", "stopped=closed"]
          else [s!"read=reset:{code}", "write=-", "finish=-", "stopped=closed"])
-      else if action == "stop_late" then
-        (if phase == "after" then ["read=-", "write=not_connected,not_connected", "finish=ok", "stopped=closed"]
-         else ["read=-", s!"write=stopped:{code},stopped:{code}", s!"finish=stopped:{code}", s!"stopped=stopped:{code}"])
       else
-        (if phase == "after" then ["read=-", "write=not_connected", "finish=ok", "stopped=closed"]
-         else ["read=-", s!"write=stopped:{code}", s!"finish=stopped:{code}", s!"stopped=stopped:{code}"])
+        -- `stop` / `stop_late`: the life-cycle model (`Driver/StreamLife.lean`, the one
+        -- `Props/C06.Life.stop_is_sticky` is about) on the op's own schedule
+        let c := code.toNat?.getD 0
+        let werr (e : StreamMap.WriteError) : String := match e with
+          | .stopped x => s!"stopped:{x}" | .notConnected => "not_connected" | .closed => "closed" | .quicProto => "quic_proto"
+        let res (r : StreamLife.Res) : String := match r with
+          | .writeOk => "ok" | .writeErr e => werr e | .finishOk => "ok" | .finishErr e => werr e
+          | .finishPending => "timeout" | .stoppedIs e => werr e | .stoppedPending => "timeout"
+          | .resetOk => "ok" | .resetClosed => "closed" | .none => "-"
+        -- phase `after`: finished and acknowledged before the stop (quinn has released the stream)
+        let q0 : StreamLife.Q := if phase == "after" then { finished := true, acked := true, released := true } else {}
+        let evs : List StreamLife.Ev :=
+          if action == "stop_late" then [.peerStop c, .write, .peerAck, .write, .stoppedQuery] ++ (if phase == "after" then [] else [.finish])
+          else [.peerStop c, .stoppedQuery, .write] ++ (if phase == "after" then [] else [.finish])
+        let rs := ((StreamLife.run false q0 evs).2.filter (· != .none)).map res
+        let fin := if phase == "after" then "ok" else rs.getLast?.getD "?"
+        if action == "stop_late" then
+          ["read=-", s!"write={rs.getD 0 "?"},{rs.getD 1 "?"}", s!"finish={fin}", s!"stopped={rs.getD 2 "?"}"]
+        else ["read=-", s!"write={rs.getD 1 "?"}", s!"finish={fin}", s!"stopped={rs.getD 0 "?"}"]
     let model := exp ++ [s!"got={field obs "got"}"]
     let wantGot : Option Nat := if phase == "before" then some 0 else if phase == "mid" then some 1000 else none
     let prop := check [("no_trap", !isTrap obs),
